@@ -49,18 +49,19 @@ var inputsDependOnParams = map[string]bool{"RatingCurvePartition": true}
 const sentinel = -7777.25
 
 type cellCase struct {
-	Model                  string
-	N, P, I, T             int
-	MaxDim                 int
-	CIn, CSt, COut, CPar   bool
-	DN, DO, DT             int
-	Warm                   bool
-	Arbitrary              bool // state rows hold arbitrary small non-negative values
-	cols                   [][]float64
-	inBlocks               [][][]float64 // [block][input][t]
-	stateRows              [][]float64
-	refOut, refFin         [][]float64
-	desc                   sim.ModelDescription
+	Model                string
+	N, P, I, T           int
+	MaxDim               int
+	CIn, CSt, COut, CPar bool
+	DN, DO, DT           int
+	Warm                 bool
+	Arbitrary            bool // state rows hold arbitrary small non-negative values
+	Snapped              bool // some inputs sit exactly on table knots / thresholds
+	cols                 [][]float64
+	inBlocks             [][][]float64 // [block][input][t]
+	stateRows            [][]float64
+	refOut, refFin       [][]float64
+	desc                 sim.ModelDescription
 }
 
 func (c *cellCase) sample() map[string]interface{} {
@@ -70,9 +71,8 @@ func (c *cellCase) sample() map[string]interface{} {
 }
 
 func drawCellCase(w *simrt.Tape, maxCells, maxT int) *cellCase {
-	names := catalog()
 	c := &cellCase{}
-	c.Model = names[w.Choose(len(names))]
+	c.Model = pickModel(w)
 	c.desc = sim.Catalog[c.Model]().Description()
 	c.N = sizeDraw(w, maxCells, 3*maxCells+1)
 	c.P = setCount(w.Choose(4), c.N)
@@ -90,7 +90,15 @@ func drawCellCase(w *simrt.Tape, maxCells, maxT int) *cellCase {
 	}
 	c.cols, c.MaxDim = drawColumns(w, c.Model, c.P)
 	for b := 0; b < c.I; b++ {
-		c.inBlocks = append(c.inBlocks, domains.GenInputs(w, c.Model, c.cols[b%c.P], c.MaxDim, c.T))
+		blk := domains.GenInputs(w, c.Model, c.cols[b%c.P], c.MaxDim, c.T)
+		if c.I == c.P || c.P == 1 {
+			// the block is used with one parameter column only (or all columns are the same):
+			// values may be snapped onto that column's knots and thresholds
+			if snapCoincidences(w, c.Model, c.desc, c.cols[b%c.P], c.MaxDim, blk) {
+				c.Snapped = true
+			}
+		}
+		c.inBlocks = append(c.inBlocks, blk)
 	}
 	for i := 0; i < c.N; i++ {
 		col := c.cols[i%c.P]
@@ -290,6 +298,12 @@ func engineCells(rc *RunCtx) *Outcome {
 	if c.Arbitrary {
 		o.probe("arbitrary_state_values")
 	}
+	if c.Snapped {
+		o.probe("inputs_exactly_on_knots_or_thresholds")
+	}
+	if c.MaxDim > 32 {
+		o.probe("table_longer_than_32_rows")
+	}
 	return o
 }
 
@@ -301,4 +315,34 @@ func arbitraryStatesOK(model string) bool {
 		return false
 	}
 	return true
+}
+
+// drawSibling draws a second argument set for the same model and the same array shapes (cells,
+// sets, blocks, timesteps, table size, back-ends) but other parameter and input values.
+func drawSibling(w *simrt.Tape, a *cellCase) *cellCase {
+	c := &cellCase{Model: a.Model, desc: a.desc, N: a.N, P: a.P, I: a.I, T: a.T, MaxDim: a.MaxDim,
+		CIn: a.CIn, CSt: a.CSt, COut: a.COut, CPar: a.CPar}
+	class := domains.StateWidthClass(a.Model, a.cols[0])
+	for j := 0; j < c.P; j++ {
+		force := 0
+		if j == 0 && c.MaxDim > 0 {
+			force = c.MaxDim
+		}
+		col := domains.GenParams(w, c.Model, c.MaxDim, force)
+		domains.ForceStateWidthClass(c.Model, col, class)
+		c.cols = append(c.cols, col)
+	}
+	for b := 0; b < c.I; b++ {
+		blk := domains.GenInputs(w, c.Model, c.cols[b%c.P], c.MaxDim, c.T)
+		if c.I == c.P || c.P == 1 {
+			if snapCoincidences(w, c.Model, c.desc, c.cols[b%c.P], c.MaxDim, blk) {
+				c.Snapped = true
+			}
+		}
+		c.inBlocks = append(c.inBlocks, blk)
+	}
+	for i := 0; i < c.N; i++ {
+		c.stateRows = append(c.stateRows, initialStateRow(c.Model, c.desc, c.cols[i%c.P], c.MaxDim))
+	}
+	return c
 }
